@@ -435,9 +435,11 @@ def c19(case, lines):
     for i, (k, it) in enumerate(items):
         if k == "bad" and ("panic" in it or "crash" in it): fails.append(f"harness: {it}")
         if k != "sess": continue
+        aborted_here = False
         for o in it.ops:
-            if aborted_before and o.result == "abort bug":
-                fails.append(f"session {i} '{o.text}': internal-invariant (BUG) panic in a session after an aborted build")
+            if (aborted_before or aborted_here) and o.result == "abort bug":
+                fails.append(f"session {i} '{o.text}': internal-invariant (BUG) panic after an aborted build")
+            if o.result and o.result.startswith("abort"): aborted_here = True
             if o.result and o.result.startswith("abort other"):
                 fails.append(f"session {i} '{o.text}': unexpected panic {o.result}")
         if any(o.result and o.result.startswith("abort") for o in it.ops):
